@@ -20,7 +20,7 @@ def build_roundtrip(args):
     from decaylanguage import DecayChain, DecayMode
     rng = random.Random(seed)
     c = cio.norm_chain(c)
-    cz = cio.ChainCZ(rng, cio.chain_names(c))
+    cz = cio.ChainCZ(rng, cio.chain_names(c), zero=True)
     order = [d["n"] for d in c["decays"]]
     rng.shuffle(order)
     obs = {"raised": "-", "dict": {"m": "?", "entries": []}, "back": {"mother": "?", "decays": []},
@@ -105,7 +105,7 @@ def build_dict(args):
     from decaylanguage import DecayChain
     rng = random.Random(seed)
     names = sorted(names_in(d["entries"], {d["m"]}))
-    cz = cio.ChainCZ(rng, names)
+    cz = cio.ChainCZ(rng, names, zero=True)
     real = {cz.names[d["m"]]: conc_entries(cz, d["entries"])}
     obs = {"rejected": False, "raised": "-", "back": {"mother": "?", "decays": []}}
     try:
@@ -251,6 +251,24 @@ def run(tier, seed, replay_path=None):
         else:
             o.exhaustive = True
         chains += [random_chain(rng, 12 if i % 3 == 0 else 6) for i in range(4000 if deep else 500)]
+        # the empty final state (the documented default mode `DecayMode()`): for the whole chain, or for a decaying
+        # particle somewhere inside it
+        for i in range(600 if deep else 80):
+            ch = random_chain(rng, 5)
+            victims = [d for d in ch["decays"] if i % 4 == 0 or d["n"] != ch["mother"]]
+            v = rng.choice(victims or ch["decays"])
+            v["ds"] = []
+            # keep only what is still reachable from the mother
+            byn = {d["n"]: d for d in ch["decays"]}
+            seen_n, stack = set(), [ch["mother"]]
+            while stack:
+                n = stack.pop()
+                if n in seen_n or n not in byn:
+                    continue
+                seen_n.add(n)
+                stack += [k for k, _ in byn[n]["ds"]]
+            ch["decays"] = [d for d in ch["decays"] if d["n"] in seen_n]
+            chains.append(ch)
         if replay_path:
             rc = json.load(open(replay_path))["case"]
             chains = [rc["c"]] if rc.get("c") else chains[:1]
